@@ -12,7 +12,7 @@
 //! Observable per op: `ok noop panic d<sink> ret<entry> none T F`, where `d<sink>` is derived from what the
 //! id-tagged recording sinks received during the op (exactly one record, of that entry, intact).
 //!
-//! T-trace case line: `race <n per thread> <threads> <delay spins> <cap>`; the observed history is sent to the
+//! T-trace case line: `race <n per thread> <threads> <detach after this many appends completed> <queue capacity, 0 = attach_to_stream default>`; the observed history is sent to the
 //! driver as `race closed=.. trace=.. written=..` and judged by `Global.raceAccept`.
 //!
 //! Oracle (independent of Lean, written from the property statement): a tracker of what is installed
@@ -728,6 +728,7 @@ impl Tracker {
     }
 }
 
+#[derive(Clone)]
 struct Outcome {
     results: Vec<String>,
     /// first deviation from the property: (class, description)
@@ -782,6 +783,38 @@ impl Shard {
                 Some(g)
             }
         }
+    }
+
+    /// a global that went through a failing case is reused only if all of this works without a panic
+    fn healthy(&self, g: usize, stuck: bool) -> bool {
+        let hs = self.crew.handles.clone();
+        let log = self.log.clone();
+        let r = self.crew.exec(
+            0,
+            Mode::Plain,
+            Box::new(move |_| {
+                let vt = &GLOBALS[g];
+                let mk = || RecSink { label: Arc::new(AtomicU64::new(0)), log: log.clone() };
+                let ok = catch(|| {
+                    if !stuck {
+                        let h = (vt.attach)(mk());
+                        assert!((vt.is_attached)());
+                        drop(h);
+                    }
+                    assert_eq!((vt.is_attached)(), stuck);
+                    for h in &hs {
+                        let g1 = (vt.set_rt)(h, BoxEntrySink::new(mk()));
+                        drop(g1);
+                    }
+                    let g2 = (vt.set_tl)(BoxEntrySink::new(mk()));
+                    drop(g2);
+                    assert_eq!((vt.is_attached)(), stuck);
+                })
+                .is_ok();
+                if ok { "ok".into() } else { "broken".into() }
+            }),
+        );
+        r == "ok"
     }
 
     fn retire(&mut self, g: usize) {
@@ -855,9 +888,17 @@ impl Shard {
             cleanup_panic = Some(p);
         }
         let stuck_now = forgot.is_some() || case.init.is_some();
-        // observe the final state from a plain thread and from inside both runtimes
+        // observe the final state from every thread (a leaked thread-local sink) and from inside both runtimes
         let mut leftover = None;
-        for (t, mode) in [(0, Mode::Plain), (1, Mode::Enter(0)), (THREADS - 1, Mode::BlockOn)] {
+        for (t, mode) in [
+            (0, Mode::Plain),
+            (1, Mode::Plain),
+            (2, Mode::Plain),
+            (3, Mode::Plain),
+            (4, Mode::Plain),
+            (1, Mode::Enter(0)),
+            (THREADS - 1, Mode::BlockOn),
+        ] {
             let r = self.crew.exec(
                 t,
                 mode,
@@ -869,9 +910,18 @@ impl Shard {
             );
             let want = if stuck_now { "T" } else { "F" };
             if r != want {
-                leftover = Some(format!("after dropping every guard and handle is_attached() on thread {t} is {r}, expected {want}"));
+                leftover = Some(format!(
+                    "after dropping every guard and handle, {}::is_attached() on thread {t} ({}) is {r}, expected {want}",
+                    GLOBALS[g].name,
+                    match mode {
+                        Mode::Plain => "no runtime",
+                        Mode::Enter(_) => "entered runtime 0",
+                        Mode::BlockOn => "inside runtime 1",
+                    }
+                ));
             }
         }
+        let (cleanup_panic_seen, leftover_seen) = (cleanup_panic.clone(), leftover.clone());
         if failure.is_none() {
             if let Some(p) = cleanup_panic {
                 failure = Some(("panic:cleanup".into(), format!("dropping a guard/handle at the end of the case panicked: {p}")));
@@ -881,7 +931,16 @@ impl Shard {
         }
         // bookkeeping of the pool
         if failure.is_some() {
-            self.retire(g); // its state is not trusted any more
+            // keep the global only if it demonstrably still works (no poisoned lock, nothing left installed)
+            let healthy = cleanup_panic_seen.is_none() && leftover_seen.is_none() && self.healthy(g, stuck_now);
+            if !healthy {
+                self.retire(g);
+            } else if let Some(label) = forgot {
+                if case.init.is_none() {
+                    self.clean.retain(|x| *x != g);
+                    self.stuck.push((g, label));
+                }
+            }
         } else if let Some(label) = forgot {
             if case.init.is_none() {
                 self.clean.retain(|x| *x != g);
@@ -933,22 +992,23 @@ impl Drop for RecStream {
 struct RaceCase {
     per_thread: u64,
     threads: usize,
-    spins: u64,
+    /// the coordinator drops the handle once this many `try_append`s (over all threads) have completed
+    target: u64,
     /// 0 = `attach_to_stream` (default queue), otherwise `BackgroundQueue::builder().capacity(cap)`
     cap: usize,
 }
 
 impl RaceCase {
     fn encode(&self) -> String {
-        format!("race {} {} {} {}", self.per_thread, self.threads, self.spins, self.cap)
+        format!("race {} {} {} {}", self.per_thread, self.threads, self.target, self.cap)
     }
     fn decode(s: &str) -> Option<RaceCase> {
         let v: Vec<&str> = s.split_whitespace().collect();
         if v.len() != 5 || v[0] != "race" {
             return None;
         }
-        let c = RaceCase { per_thread: v[1].parse().ok()?, threads: v[2].parse().ok()?, spins: v[3].parse().ok()?, cap: v[4].parse().ok()? };
-        if c.threads == 0 || c.threads > THREADS || c.per_thread > 900 {
+        let c = RaceCase { per_thread: v[1].parse().ok()?, threads: v[2].parse().ok()?, target: v[3].parse().ok()?, cap: v[4].parse().ok()? };
+        if c.threads == 0 || c.threads > THREADS || c.per_thread > 900 || c.target > c.per_thread * c.threads as u64 {
             return None;
         }
         Some(c)
@@ -977,9 +1037,11 @@ impl Shard {
             }
         };
         let go = Arc::new(AtomicBool::new(false));
+        let progress = Arc::new(AtomicU64::new(0));
         let mut pending = vec![];
         for t in 0..c.threads {
             let go = go.clone();
+            let progress = progress.clone();
             let n = c.per_thread;
             let mode = if t >= THREADS - RUNTIMES { Mode::BlockOn } else { Mode::Plain };
             pending.push(self.crew.submit(
@@ -999,13 +1061,14 @@ impl Shard {
                             Ok(Err(_)) => 'x',
                             Err(_) => 'p',
                         });
+                        progress.fetch_add(1, Ordering::AcqRel);
                     }
                     out
                 }),
             ));
         }
         go.store(true, Ordering::Release);
-        for _ in 0..c.spins {
+        while progress.load(Ordering::Acquire) < c.target {
             std::hint::spin_loop();
         }
         let dropped = catch(|| drop(handle));
@@ -1182,6 +1245,15 @@ fn gen_random(rng: &mut Rng, allow_forget: bool, stuck: bool) -> Case {
         };
         ops.push(Item { t, r, op });
     }
+    if allow_forget {
+        // make it likely that the forget finds a live handle
+        let (t, r) = gen_ctx(rng);
+        let at = rng.below(ops.len() as u64 / 2 + 1) as usize;
+        ops.insert(at, Item { t, r, op: Op::Attach(90) });
+        let (t, r) = gen_ctx(rng);
+        let at2 = at + 1 + rng.below((ops.len() - at) as u64) as usize;
+        ops.insert(at2, Item { t, r, op: Op::ForgetAttach });
+    }
     if rng.chance(1, 2) {
         ops.extend(probes(2000));
     }
@@ -1237,6 +1309,44 @@ fn gen_orders(rng: &mut Rng, out: &mut Vec<Case>, count: usize) {
     }
 }
 
+/// every script of the given length over a reduced alphabet (9 ops x 4 contexts), each followed by probes
+fn gen_exhaustive(len: usize) -> Vec<Case> {
+    let ctxs = [(0usize, None), (0, Some(0usize)), (3, Some(0)), (3, None)];
+    let mut alphabet: Vec<(usize, Option<usize>, usize)> = vec![];
+    for (t, r) in ctxs {
+        for o in 0..9 {
+            alphabet.push((t, r, o));
+        }
+    }
+    let mut out = vec![];
+    let n = alphabet.len();
+    let total = n.pow(len as u32);
+    for mut code in 0..total {
+        let mut ops = vec![];
+        for pos in 0..len {
+            let (t, r, o) = alphabet[code % n];
+            code /= n;
+            let s = pos as u64 + 1;
+            let e = 1000 + pos as u64;
+            let op = match o {
+                0 => Op::Attach(s),
+                1 => Op::DropAttach,
+                2 => Op::SetTL(s),
+                3 => Op::DropTL,
+                4 => Op::SetRT(0, s),
+                5 => Op::DropRT(0),
+                6 => Op::SetRTCur(s),
+                7 => Op::TryAppend(e),
+                _ => Op::Sink(e),
+            };
+            ops.push(Item { t, r, op });
+        }
+        ops.extend(probes(2000));
+        out.push(Case { init: None, ops });
+    }
+    out
+}
+
 /// panics in the middle of a populated state, then everything keeps working
 fn gen_panics(rng: &mut Rng) -> Case {
     let t = rng.below(THREADS as u64) as usize;
@@ -1283,8 +1393,9 @@ fn gen_panics(rng: &mut Rng) -> Case {
 // ------------------------------------------------------------------------------------------------
 
 struct ShardResult {
-    /// (case line, outcome) in order
-    step: Vec<(Case, Outcome)>,
+    /// (case line, canonical results of the implementation, non-trivial) in order
+    step: Vec<(String, String, bool)>,
+    dist: std::collections::BTreeMap<String, u64>,
     races: Vec<(RaceCase, RaceOutcome)>,
     skipped: u64,
     /// shrunk failures: (key, case, impl, what)
@@ -1292,7 +1403,7 @@ struct ShardResult {
     search_cases: u64,
 }
 
-fn shrink_failure(shard: &mut Shard, case: &Case, class: &str) -> (Case, Outcome) {
+fn shrink_failure(shard: &mut Shard, case: &Case, orig: Outcome, class: &str) -> (Case, Outcome) {
     let ops = shrink_list(&case.ops, |cand| {
         let c = Case { init: case.init, ops: cand.to_vec() };
         match shard.run(&c) {
@@ -1303,16 +1414,16 @@ fn shrink_failure(shard: &mut Shard, case: &Case, class: &str) -> (Case, Outcome
     let c = Case { init: case.init, ops };
     match shard.run(&c) {
         Some(o) if o.failure.is_some() => (c, o),
-        _ => {
-            let o = shard.run(case);
-            (case.clone(), o.unwrap_or(Outcome { results: vec![], failure: Some((class.into(), "pool exhausted while shrinking".into())), nontrivial: false, forgot: false }))
-        }
+        _ => (case.clone(), orig),
     }
 }
 
 fn run_shard(index: usize, cases: Vec<Case>, races: Vec<RaceCase>) -> ShardResult {
     let mut shard = Shard::new(index);
-    let mut res = ShardResult { step: vec![], races: vec![], skipped: 0, failures: vec![], search_cases: 0 };
+    let mut res = ShardResult { step: vec![], dist: Default::default(), races: vec![], skipped: 0, failures: vec![], search_cases: 0 };
+    fn bump(d: &mut std::collections::BTreeMap<String, u64>, k: &str) {
+        *d.entry(k.to_string()).or_insert(0) += 1;
+    }
     let mut failed_classes: Vec<String> = vec![];
     for c in cases {
         match shard.run(&c) {
@@ -1320,12 +1431,36 @@ fn run_shard(index: usize, cases: Vec<Case>, races: Vec<RaceCase>) -> ShardResul
                 if let Some((class, _)) = &o.failure {
                     if !failed_classes.contains(class) && failed_classes.len() < 4 {
                         failed_classes.push(class.clone());
-                        let (sc, so) = shrink_failure(&mut shard, &c, class);
+                        let (sc, so) = shrink_failure(&mut shard, &c, o.clone(), class);
                         let what = so.failure.as_ref().map(|f| f.1.clone()).unwrap_or_default();
                         res.failures.push((format!("global:{class}"), sc.encode(), so.results.join(" "), what));
                     }
                 }
-                res.step.push((c, o));
+                let d = &mut res.dist;
+                bump(d, &format!("init:{}", if c.init.is_some() { "forgotten-sink" } else { "detached" }));
+                bump(d, &format!("script-len:{}", match c.ops.len() { 0..=5 => "01-05", 6..=15 => "06-15", 16..=30 => "16-30", _ => "31+" }));
+                if o.forgot {
+                    bump(d, "cases ending attached-forever (forget took effect)");
+                }
+                for (it, r) in c.ops.iter().zip(&o.results) {
+                    bump(d, &format!("op:{}", it.name()));
+                    let kind = if r.starts_with("d?") { "anomaly" } else if r.starts_with('d') { "dest" } else if r.starts_with("ret") { "returned" } else { r.as_str() };
+                    bump(d, &format!("result:{}:{}", it.name(), kind));
+                    bump(
+                        d,
+                        &format!(
+                            "ctx:{}",
+                            match (it.t >= THREADS - RUNTIMES, it.r) {
+                                (false, None) => "worker/plain",
+                                (false, Some(_)) => "worker/entered-runtime",
+                                (true, None) => "runtime-thread/outside",
+                                (true, Some(k)) if it.t == THREADS - RUNTIMES + k => "runtime-thread/block_on",
+                                (true, Some(_)) => "runtime-thread/entered-other",
+                            }
+                        ),
+                    );
+                }
+                res.step.push((c.encode(), if o.results.is_empty() { "-".into() } else { o.results.join(" ") }, o.nontrivial));
             }
             None => res.skipped += 1,
         }
@@ -1386,10 +1521,13 @@ fn main() {
                 rep.notes.push(format!("corpus line not understood: {l}"));
             }
         }
-        let n_random = if thorough { 60_000 } else { 1_500 };
+        for (i, c) in gen_exhaustive(if thorough { 3 } else { 2 }).into_iter().enumerate() {
+            step_cases[i % shards].push(c);
+        }
+        let n_random = if thorough { 80_000 } else { 3_000 };
         let n_orders = if thorough { 720 } else { 120 };
-        let n_panics = if thorough { 4_000 } else { 150 };
-        let n_races = if thorough { 400 } else { 40 };
+        let n_panics = if thorough { 4_000 } else { 300 };
+        let n_races = if thorough { 1_500 } else { 60 };
         // forget can make a global unusable for clean cases: bounded number of such cases per shard
         let forget_budget = POOL_PER_SHARD - 8;
         for s in 0..shards {
@@ -1414,14 +1552,16 @@ fn main() {
                 race_cases[s].push(RaceCase {
                     per_thread: *r.pick(&[0, 1, 5, 40, 120, 300]),
                     threads: r.range(1, THREADS as u64) as usize,
-                    spins: match i % 4 {
-                        0 => 0,
-                        1 => r.below(2_000),
-                        2 => r.below(40_000),
-                        _ => r.below(400_000),
-                    },
+                    target: 0,
                     cap: if r.chance(1, 3) { 0 } else { 4096 },
                 });
+                let rc = race_cases[s].last_mut().unwrap();
+                let total = rc.per_thread * rc.threads as u64;
+                rc.target = match i % 5 {
+                    0 => 0,
+                    1 => total,
+                    _ => r.below(total + 1),
+                };
             }
         }
     }
@@ -1438,43 +1578,25 @@ fn main() {
 
     // report + correspondence
     let mut requests: Vec<String> = vec![];
-    let mut answers: Vec<(String, String, &'static str)> = vec![]; // (impl answer, case text, component)
+    let mut answers: Vec<(String, Option<String>, &'static str)> = vec![]; // (impl answer, case text if not the request, component)
     let mut any_oracle_failure = false;
-    for sr in &results {
+    for sr in results {
         rep.bump_by("skipped:no-suitable-global", sr.skipped);
         rep.search_cases += sr.search_cases;
         for (key, case, imp, what) in &sr.failures {
             any_oracle_failure = true;
             rep.oracle_failure(key, case, imp, what);
         }
-        for (ci, (c, o)) in sr.step.iter().enumerate() {
-            let enc = c.encode();
-            rep.case(&enc, o.nontrivial);
-            rep.bump(&format!("init:{}", if c.init.is_some() { "forgotten-sink" } else { "detached" }));
-            rep.bump(&format!("script-len:{}", match c.ops.len() { 0..=5 => "1-5", 6..=15 => "6-15", 16..=30 => "16-30", _ => "31+" }));
-            if o.forgot {
-                rep.bump("cases ending attached-forever (forget took effect)");
+        for (k, v) in &sr.dist {
+            rep.bump_by(k, *v);
+        }
+        for (ci, (enc, results, nontrivial)) in sr.step.into_iter().enumerate() {
+            rep.case(&enc, nontrivial);
+            if ci % 1499 == 0 && ci / 1499 < 4 {
+                rep.sample(json!({"case": enc, "impl": results}));
             }
-            for (it, r) in c.ops.iter().zip(&o.results) {
-                rep.bump(&format!("op:{}", it.name()));
-                let kind = if r.starts_with("d?") { "anomaly" } else if r.starts_with('d') { "dest" } else if r.starts_with("ret") { "returned" } else { r.as_str() };
-                rep.bump(&format!("result:{}:{}", it.name(), kind));
-                rep.bump(&format!(
-                    "ctx:{}",
-                    match (it.t >= THREADS - RUNTIMES, it.r) {
-                        (false, None) => "worker/plain",
-                        (false, Some(_)) => "worker/entered-runtime",
-                        (true, None) => "runtime-thread/outside",
-                        (true, Some(k)) if it.t == THREADS - RUNTIMES + k => "runtime-thread/block_on",
-                        (true, Some(_)) => "runtime-thread/entered-other",
-                    }
-                ));
-            }
-            if ci % 1499 == 0 {
-                rep.sample(json!({"case": enc, "impl": o.results.join(" ")}));
-            }
-            requests.push(enc.clone());
-            answers.push((if o.results.is_empty() { "-".into() } else { o.results.join(" ") }, enc, "global/step"));
+            requests.push(enc);
+            answers.push((results, None, "global/step"));
         }
         for (ci, (rc, o)) in sr.races.iter().enumerate() {
             let enc = rc.encode();
@@ -1491,7 +1613,7 @@ fn main() {
             }
             rep.traces_validated += 1;
             requests.push(o.request.clone());
-            answers.push(("accept".into(), enc, "global/race-trace"));
+            answers.push(("accept".into(), Some(enc), "global/race-trace"));
         }
     }
     let mut disagreeing: Vec<String> = vec![];
@@ -1499,10 +1621,13 @@ fn main() {
         Some(replies) => {
             for ((ans, case, comp), (req, reply)) in answers.iter().zip(requests.iter().zip(replies.iter())) {
                 if ans != reply {
-                    let shown: String = if *comp == "global/step" { case.clone() } else { format!("{case} ## {}", req.chars().take(600).collect::<String>()) };
+                    let shown: String = match case {
+                        None => req.clone(),
+                        Some(case) => format!("{case} ## {}", req.chars().take(600).collect::<String>()),
+                    };
                     rep.disagreement(comp, &shown, ans, reply);
                     if *comp == "global/step" && disagreeing.len() < 5 {
-                        disagreeing.push(case.clone());
+                        disagreeing.push(req.clone());
                     }
                 }
             }
@@ -1559,7 +1684,7 @@ fn main() {
                         Some(o) => {
                             if let Some((class, _)) = &o.failure {
                                 let class = class.clone();
-                                let (sc, so) = shrink_failure(&mut shard, &c, &class);
+                                let (sc, so) = shrink_failure(&mut shard, &c, o.clone(), &class);
                                 let what = so.failure.as_ref().map(|f| f.1.clone()).unwrap_or_default();
                                 rep.oracle_failure(&format!("global:{class}"), &sc.encode(), &so.results.join(" "), &what);
                                 rep.search_found = true;
